@@ -340,6 +340,19 @@ func TestVerifCodecEngine(t *testing.T) {
 			o["enc"] = hx(b)
 			readCid(o, b)
 			o["equals"] = o["dec"] != nil && func() bool { r := NewChainID(); r.Read(b); return cid.Equals(r) }()
+		case "CE": // ChainID.Equals between two chain ids (Cid, and Raw = JSON of the second one)
+			var b vChainID
+			json.Unmarshal([]byte(c.Raw), &b)
+			x := &ChainID{Version: c.Cid.Version, PublicNet: c.Cid.Public, MainNet: c.Cid.Main, Magic: string(unhex(c.Cid.Magic)), Consensus: string(unhex(c.Cid.Consensus))}
+			y := &ChainID{Version: b.Version, PublicNet: b.Public, MainNet: b.Main, Magic: string(unhex(b.Magic)), Consensus: string(unhex(b.Consensus))}
+			o["equals"] = x.Equals(y)
+			o["equals_sym"] = y.Equals(x)
+			o["equals_nil"] = x.Equals(nil)
+			xb, _ := x.Bytes()
+			yb, _ := y.Bytes()
+			o["equal_without_version"] = ChainIdEqualWithoutVersion(xb, yb)
+			g := &Genesis{ID: *x}
+			o["validate_ok"] = g.Validate() == nil
 		case "CR": // ChainID.Read on arbitrary bytes
 			readCid(o, unhex(c.Raw))
 		case "G": // genesis info as stored by the chain DB: Genesis.Bytes / GetGenesisFromBytes (gob, Balance omitted by design)
